@@ -10,16 +10,204 @@ import (
 	"strings"
 	"sync"
 	"time"
+
+	"golang.org/x/tools/go/packages"
 )
+
+// funcTarget locates the code a contract is attached to: a declared function /
+// method, or the N-th function literal inside one (name "Outer$N").
+type funcTarget struct {
+	pkg   *packages.Package
+	decl  *ast.FuncDecl
+	lit   *ast.FuncLit
+	ftype *ast.FuncType
+	body  *ast.BlockStmt
+	sig   *types.Signature
+}
+
+func (e *Engine) locate(c *Contract) *funcTarget {
+	name := c.Name
+	litN := 0
+	if k := strings.Index(name, "$"); k >= 0 {
+		fmt.Sscanf(name[k+1:], "%d", &litN)
+		name = name[:k]
+	}
+	key := contractKey(c.Pkg, c.Recv, name)
+	fd := e.funcDecls[key]
+	pkg := e.funcPkg[key]
+	if fd == nil || fd.Body == nil {
+		return nil
+	}
+	if litN == 0 {
+		return &funcTarget{pkg: pkg, decl: fd, ftype: fd.Type, body: fd.Body, sig: pkg.TypesInfo.Defs[fd.Name].Type().(*types.Signature)}
+	}
+	n := 0
+	var found *ast.FuncLit
+	ast.Inspect(fd.Body, func(x ast.Node) bool {
+		if fl, ok := x.(*ast.FuncLit); ok {
+			n++
+			if n == litN && found == nil {
+				found = fl
+			}
+		}
+		return true
+	})
+	if found == nil {
+		return nil
+	}
+	sig, _ := pkg.TypesInfo.TypeOf(found).(*types.Signature)
+	return &funcTarget{pkg: pkg, decl: fd, lit: found, ftype: found.Type, body: found.Body, sig: sig}
+}
+
+// effective returns the contract with an implemented interface contract merged in.
+func (e *Engine) effective(c *Contract, tgt *funcTarget) *Contract {
+	if c.Impl == "" {
+		return c
+	}
+	parts := strings.Split(c.Impl, ".")
+	var ic *Contract
+	if len(parts) == 2 {
+		ic = e.cs.Contracts[contractKey(c.Pkg, parts[0], parts[1])]
+		if ic == nil {
+			for _, cand := range e.cs.Contracts {
+				if cand.Iface && cand.Recv == parts[0] && cand.Name == parts[1] {
+					ic = cand
+				}
+			}
+		}
+	}
+	if ic == nil {
+		panic(unsupported("implements %s: no such interface contract", c.Impl))
+	}
+	// rename the interface method's parameter names to this function's names (by position)
+	ren := map[string]string{}
+	if ifn := e.ifaceMethod(ic); ifn != nil {
+		isig := ifn.Type().(*types.Signature)
+		k := 0
+		for _, fld := range tgt.ftype.Params.List {
+			for _, n := range fld.Names {
+				if k < isig.Params().Len() {
+					ren[isig.Params().At(k).Name()] = n.Name
+				}
+				k++
+			}
+		}
+		k = 0
+		if tgt.ftype.Results != nil {
+			for _, fld := range tgt.ftype.Results.List {
+				for _, n := range fld.Names {
+					if k < isig.Results().Len() && isig.Results().At(k).Name() != "" {
+						ren[isig.Results().At(k).Name()] = n.Name
+					}
+					k++
+				}
+			}
+		}
+	}
+	m := *c
+	renC := func(cl *Clause) *Clause {
+		return &Clause{Text: cl.Text + "   (from " + c.Impl + ")", Expr: renameIdents(cl.Expr, ren), Line: cl.Line, File: cl.File}
+	}
+	m.Requires = nil
+	for _, r := range ic.Requires {
+		m.Requires = append(m.Requires, renC(r))
+	}
+	m.Requires = append(m.Requires, c.Requires...)
+	m.Ensures = nil
+	for _, r := range ic.Ensures {
+		m.Ensures = append(m.Ensures, renC(r))
+	}
+	m.Ensures = append(m.Ensures, c.Ensures...)
+	m.Modifies = nil
+	m.ModText = nil
+	for k, x := range ic.Modifies {
+		m.Modifies = append(m.Modifies, renameIdents(x, ren))
+		m.ModText = append(m.ModText, ic.ModText[k])
+	}
+	m.Modifies = append(m.Modifies, c.Modifies...)
+	m.ModText = append(m.ModText, c.ModText...)
+	return &m
+}
+
+func (e *Engine) ifaceMethod(ic *Contract) *types.Func {
+	pkg := e.pkgs[ic.Pkg]
+	if pkg == nil {
+		return nil
+	}
+	obj := pkg.Types.Scope().Lookup(ic.Recv)
+	if obj == nil {
+		return nil
+	}
+	it, ok := obj.Type().Underlying().(*types.Interface)
+	if !ok {
+		return nil
+	}
+	for i := 0; i < it.NumMethods(); i++ {
+		if it.Method(i).Name() == ic.Name {
+			return it.Method(i)
+		}
+	}
+	return nil
+}
+
+// renameIdents copies a contract expression renaming free identifiers.
+func renameIdents(e ast.Expr, ren map[string]string) ast.Expr {
+	if len(ren) == 0 {
+		return e
+	}
+	switch x := e.(type) {
+	case *ast.Ident:
+		if n, ok := ren[x.Name]; ok {
+			return ast.NewIdent(n)
+		}
+		return x
+	case *ast.BinaryExpr:
+		return &ast.BinaryExpr{X: renameIdents(x.X, ren), Op: x.Op, Y: renameIdents(x.Y, ren)}
+	case *ast.UnaryExpr:
+		return &ast.UnaryExpr{Op: x.Op, X: renameIdents(x.X, ren)}
+	case *ast.ParenExpr:
+		return &ast.ParenExpr{X: renameIdents(x.X, ren)}
+	case *ast.CallExpr:
+		n := &ast.CallExpr{Fun: x.Fun}
+		if _, isId := x.Fun.(*ast.Ident); !isId {
+			n.Fun = renameIdents(x.Fun, ren)
+		}
+		for _, a := range x.Args {
+			n.Args = append(n.Args, renameIdents(a, ren))
+		}
+		return n
+	case *ast.SelectorExpr:
+		return &ast.SelectorExpr{X: renameIdents(x.X, ren), Sel: x.Sel}
+	case *ast.IndexExpr:
+		return &ast.IndexExpr{X: renameIdents(x.X, ren), Index: renameIdents(x.Index, ren)}
+	case *ast.SliceExpr:
+		n := &ast.SliceExpr{X: renameIdents(x.X, ren)}
+		if x.Low != nil {
+			n.Low = renameIdents(x.Low, ren)
+		}
+		if x.High != nil {
+			n.High = renameIdents(x.High, ren)
+		}
+		return n
+	case *ast.StarExpr:
+		return &ast.StarExpr{X: renameIdents(x.X, ren)}
+	}
+	return e
+}
 
 // VerifyFunc generates the obligations of one function under contract.
 func (e *Engine) VerifyFunc(c *Contract) {
-	key := c.Key()
-	fd := e.funcDecls[key]
-	pkg := e.funcPkg[key]
 	name := shortName(c)
-	if fd == nil || fd.Body == nil {
-		e.rejected[name] = "contract refers to unknown function " + key
+	if c.Iface {
+		e.trusted["interface contract "+name+": proved for the implementations under contract, assumed for all other implementations"] = true
+		if e.ifaceMethod(c) == nil {
+			e.rejected[name] = "interface contract refers to unknown interface method"
+		}
+		return
+	}
+	tgt := e.locate(c)
+	if tgt == nil {
+		e.rejected[name] = "contract refers to unknown function " + c.Key()
 		return
 	}
 	if c.Trusted {
@@ -35,28 +223,68 @@ func (e *Engine) VerifyFunc(c *Contract) {
 			e.rejected[name] = fmt.Sprintf("internal error: %v\n%s", r, debug.Stack())
 		}
 	}()
-	fc := &FnCtx{e: e, pkg: pkg, info: pkg.TypesInfo, decl: fd, body: fd.Body, c: c, name: name,
+	pkg := tgt.pkg
+	c = e.effective(c, tgt)
+	fc := &FnCtx{e: e, pkg: pkg, info: pkg.TypesInfo, decl: tgt.decl, body: tgt.body, c: c, name: name,
 		counters: map[string]int{}, modified: map[types.Object]bool{}}
-	fc.sig = pkg.TypesInfo.Defs[fd.Name].Type().(*types.Signature)
+	fc.sig = tgt.sig
 	fc.index()
 	st := NewState()
+	st.ghost[failedKey] = Var("failedDuring0", SBool)
 	// receiver and parameters
-	if fd.Recv != nil && len(fd.Recv.List) > 0 && len(fd.Recv.List[0].Names) > 0 {
-		n := fd.Recv.List[0].Names[0]
-		if obj := pkg.TypesInfo.Defs[n]; obj != nil {
-			st.Declare(obj, e.freshValue(st, n.Name, obj.Type(), true))
-			fc.params = append(fc.params, obj)
-		}
-	}
-	for _, fld := range fd.Type.Params.List {
-		for _, n := range fld.Names {
+	declareParams := func(ft *ast.FuncType, recv *ast.FieldList) {
+		if recv != nil && len(recv.List) > 0 && len(recv.List[0].Names) > 0 {
+			n := recv.List[0].Names[0]
 			if obj := pkg.TypesInfo.Defs[n]; obj != nil {
 				st.Declare(obj, e.freshValue(st, n.Name, obj.Type(), true))
 				fc.params = append(fc.params, obj)
 			}
 		}
+		for _, fld := range ft.Params.List {
+			for _, n := range fld.Names {
+				if obj := pkg.TypesInfo.Defs[n]; obj != nil {
+					st.Declare(obj, e.freshValue(st, n.Name, obj.Type(), true))
+					fc.params = append(fc.params, obj)
+				}
+			}
+		}
 	}
-	fc.results = namedResults(pkg.TypesInfo, fd.Type)
+	if tgt.lit != nil {
+		// captured variables of the enclosing function: unconstrained
+		declareParams(tgt.decl.Type, tgt.decl.Recv)
+		if tgt.decl.Type.Results != nil {
+			for _, r := range namedResults(pkg.TypesInfo, tgt.decl.Type) {
+				if r != nil {
+					st.Declare(r, e.freshValue(st, r.Name(), r.Type(), true))
+				}
+			}
+		}
+		seen := map[types.Object]bool{}
+		ast.Inspect(tgt.lit.Body, func(x ast.Node) bool {
+			id, ok := x.(*ast.Ident)
+			if !ok {
+				return true
+			}
+			v, ok := pkg.TypesInfo.Uses[id].(*types.Var)
+			if !ok || seen[v] || v.IsField() || v.Pkg() == nil || v.Parent() == v.Pkg().Scope() {
+				return true
+			}
+			seen[v] = true
+			if _, have := st.vars[v]; have {
+				return true
+			}
+			if v.Pos() >= tgt.lit.Pos() && v.Pos() < tgt.lit.End() {
+				return true // declared inside the literal
+			}
+			st.Declare(v, e.freshValue(st, v.Name(), v.Type(), true))
+			return true
+		})
+		fc.params = nil
+		declareParams(tgt.ftype, nil)
+	} else {
+		declareParams(tgt.ftype, tgt.decl.Recv)
+	}
+	fc.results = namedResults(pkg.TypesInfo, tgt.ftype)
 	for _, r := range fc.results {
 		if r != nil {
 			st.Declare(r, e.zeroValue(st, r.Type()))
@@ -83,9 +311,9 @@ func (e *Engine) VerifyFunc(c *Contract) {
 	}
 	fc.entry = st.Clone()
 	// cover: the preconditions are satisfiable
-	e.addObl(&Obligation{Name: name + "#cover.requires", Kind: "cover", Func: name, Hyps: st.Hyps(), Cover: true, Pos: e.posStr(fd.Pos())})
+	e.addObl(&Obligation{Name: name + "#cover.requires", Kind: "cover", Func: name, Hyps: st.Hyps(), Cover: true, Pos: e.posStr(tgt.body.Pos())})
 	fc.applyUses(st, "entry")
-	outs := fc.execBlock(st, fd.Body.List)
+	outs := fc.execBlock(st, tgt.body.List)
 	for _, o := range outs {
 		switch o.kind {
 		case oReturn:
@@ -97,7 +325,7 @@ func (e *Engine) VerifyFunc(c *Contract) {
 					rets = append(rets, o.st.vars[r])
 				}
 			}
-			fc.finish(o.st, rets, "end", fd.Body.Rbrace)
+			fc.finish(o.st, rets, "end", tgt.body.Rbrace)
 		default:
 			panic(unsupported("break/continue escapes function body"))
 		}
@@ -107,8 +335,12 @@ func (e *Engine) VerifyFunc(c *Contract) {
 
 func (fc *FnCtx) finish(st *State, rets []Value, where string, pos token.Pos) {
 	// deferred calls, last first
-	for i := len(st.defers) - 1; i >= 0; i-- {
-		rets = st.defers[i].run(st, rets)
+	if len(st.defers) > 0 {
+		fc.nameSuffix = "@defer@" + where
+		for i := len(st.defers) - 1; i >= 0; i-- {
+			rets = st.defers[i].run(st, rets)
+		}
+		fc.nameSuffix = ""
 	}
 	scope := map[string]Value{}
 	res := fc.sig.Results()
@@ -150,6 +382,9 @@ func (fc *FnCtx) frameCheck(st *State, where string, pos token.Pos) {
 	allowedVars := map[string]bool{}
 	sc := fc.specCtx(fc.entry.Clone(), nil)
 	for _, m := range fc.c.Modifies {
+		if _, isGhost := sc.ghostLvalOf(m); isGhost {
+			continue
+		}
 		root, field := modRootField(m)
 		if field == "" {
 			allowedVars[root] = true
